@@ -14,7 +14,7 @@ impl E2Part for Flavours {
         "C07"
     }
     fn rule(&self) -> String {
-        "One mapping (named or tuple struct, 1-5 members: plain / renamed / ~ expression per direction / ghost with default; D-only members through #[ghosts]; D members nobody mentions, in which case the `into` flavour carries ..sentinel()) requested in all 12 flavours: infallible on S (from + into + into_existing) and fallible on a twin SF with the same member instructions (try_from + try_into + try_into_existing); in 2/3 of the cases one member of SF additionally raises Err(E(n))? on a trigger value. Oracle (pairwise, no reference): From(&d) == From(d.clone()); (&s).into() == s.clone().into(); TryX == Ok(X) member-wise on non-trigger inputs and Err(E(n)) on trigger inputs for all six fallible flavours; into_existing / try_into_existing on a sentinel-filled D equals into() (mentioned members equal, every other member keeps the sentinel). Non-trivial = >= 2 mapped members and (an unmentioned D member or an error-raising member); distinct by derive-input text.".into()
+        "One mapping (named or tuple struct, 1-5 members: plain / renamed / ~ expression per direction / ghost with default; D-only members through #[ghosts]; D members nobody mentions, in which case the `into` flavour carries ..sentinel(), also next to a bare #[parent] member; 1 in 4 named structs have a positional counterpart `D as ()` reached through index renames, and positional counterparts hold the members in a permuted order 2 times in 3) requested in all 12 flavours: infallible on S (from + into + into_existing) and fallible on a twin SF with the same member instructions (try_from + try_into + try_into_existing); in 2/3 of the cases one member of SF additionally raises Err(E(n))? on a trigger value. Oracle (pairwise, no reference): From(&d) == From(d.clone()); (&s).into() == s.clone().into(); TryX == Ok(X) member-wise on non-trigger inputs and Err(E(n)) on trigger inputs for all six fallible flavours; into_existing / try_into_existing on a sentinel-filled D equals into() (mentioned members equal, every other member keeps the sentinel). Non-trivial = >= 2 mapped members and (an unmentioned D member or an error-raising member); distinct by derive-input text.".into()
     }
     fn cases(&self, tier: Tier) -> usize {
         match tier {
